@@ -17,6 +17,7 @@ syntax), so that two ways of writing the same thing get one path table:
   N14 if c: while T: B1  else: while T: B2  ->  while T: if c: B1 else: B2        (c invariant: loop unswitching undone)
   N15 while T[(x := E)]: B                  ->  while True: x = E; if not T[x]: break; B
   N16 a if a < b else b                     ->  min(a, b)     (and the max / <= / >= forms)
+  N17 the search loop: work done at the match inside the loop / after it / in the caller of a _find() helper (see _search_loops)
   N12 for n, d in G.nodes(data=True)        ->  for n in G.nodes(): d = G.nodes[n]     (networkx)
   N7  try: return B[0]..  except IndexError: H   ->   if not B: H  else: return B[0]..   (one statement, no call; the
                                                                       entries of B are taken to be non-empty themselves)
@@ -113,6 +114,9 @@ class _Norm(ast.NodeTransformer):
                 return out
             out.append(b)
             i += 1
+        # the same inside an if block that ends the loop body (a `continue` there skips nothing but the rest of that block)
+        if out and isinstance(out[-1], ast.If) and not out[-1].orelse:
+            out[-1].body = self._continue_guards(out[-1].body)
         return out
 
     # N12: networkx   for n, d in G.nodes(data=True)   ->   for n in G.nodes(): d = G.nodes[n]
@@ -424,6 +428,91 @@ def _terminal_loop_returns(fn):
     rewrite(last.body)
 
 
+def _search_loops(fn):
+    """N17  the search loop.   for T in S: ... if C: BODY; break      (one jump in the loop, at the tail of an if chain;
+    the jump may also be `return E`)  becomes
+         __hit = False
+         for T in S: ... if C: __hit = True; break
+         if __hit: BODY [; return E]
+    so that doing the work inside the loop, doing it after the loop, and doing it in the caller of an extracted
+    `_find()` helper that returns the match are one form (loop variables keep their values after a break)."""
+    counter = [0]
+
+    def level_jumps(stmts):
+        out = []
+        for st_ in stmts:
+            if isinstance(st_, (ast.Break, ast.Return)):
+                out.append(st_)
+            elif isinstance(st_, (ast.For, ast.While, ast.FunctionDef, ast.AsyncFunctionDef, ast.ClassDef)):
+                # a nested loop's break is its own; a return inside it still leaves us: count returns
+                out.extend(n for n in ast.walk(st_) if isinstance(n, ast.Return))
+            else:
+                for fld in ('body', 'orelse', 'finalbody'):
+                    out.extend(level_jumps(getattr(st_, fld, []) or []))
+                for h in getattr(st_, 'handlers', []) or []:
+                    out.extend(level_jumps(h.body))
+        return out
+
+    def tail(block):
+        if not block:
+            return None
+        last = block[-1]
+        if isinstance(last, (ast.Break, ast.Return)):
+            return block
+        if isinstance(last, ast.If) and not last.orelse:
+            return tail(last.body)
+        return None
+
+    def blocks(node):
+        for fld in ('body', 'orelse', 'finalbody'):
+            b = getattr(node, fld, None)
+            if isinstance(b, list) and b and isinstance(b[0], ast.stmt):
+                yield b
+        for h in getattr(node, 'handlers', []) or []:
+            yield h.body
+    for node in list(ast.walk(fn)):
+        if isinstance(node, ast.Lambda):
+            continue
+        for b in blocks(node):
+            i = 0
+            while i < len(b):
+                loop = b[i]
+                if isinstance(loop, ast.For) and not loop.orelse and not getattr(loop, '_n17', False):
+                    loop._n17 = True
+                    jumps = level_jumps(loop.body)
+                    blk = tail(loop.body)
+                    if len(jumps) == 1 and blk is not None and blk[-1] is jumps[0] and blk is not loop.body \
+                            and not any(isinstance(n, (ast.Yield, ast.YieldFrom)) and False for n in ast.walk(loop)):
+                        j = blk[-1]
+                        if isinstance(j, ast.Return) and j.value is not None and any(
+                                isinstance(n, (ast.Call, ast.Yield, ast.YieldFrom)) for n in ast.walk(j.value)):
+                            i += 1
+                            continue
+                        body = blk[:-1]
+                        if not body and isinstance(j, ast.Break):
+                            i += 1
+                            continue            # a plain `if C: break` search: already the canonical form
+                        counter[0] += 1
+                        flag = '__hit%d' % counter[0]
+                        del blk[:]
+                        blk.append(ast.Assign(targets=[ast.Name(id=flag, ctx=ast.Store())], value=ast.Constant(value=True)))
+                        blk.append(ast.Break())
+                        init = ast.Assign(targets=[ast.Name(id=flag, ctx=ast.Store())], value=ast.Constant(value=False))
+                        after_body = body + ([j] if isinstance(j, ast.Return) else [])
+                        after = ast.If(test=ast.Name(id=flag, ctx=ast.Load()), body=after_body, orelse=[])
+                        for x in (init, after):
+                            ast.copy_location(x, loop)
+                        for x in blk:
+                            ast.copy_location(x, j)
+                        b[i:i + 1] = [init, loop, after]
+                        ast.fix_missing_locations(b[i])
+                        ast.fix_missing_locations(b[i + 1])
+                        ast.fix_missing_locations(b[i + 2])
+                        i += 3
+                        continue
+                i += 1
+
+
 _CACHE = {}
 
 
@@ -434,5 +523,6 @@ def normalized(fn: ast.FunctionDef) -> ast.FunctionDef:
         _inline_guard_temps(fn2)
         _terminal_loop_returns(fn2)
         _Norm(fn2).visit(fn2)
+        _search_loops(fn2)
         _CACHE[k] = (fn, fn2)          # keep fn alive: ids are reused otherwise
     return _CACHE[k][1]
